@@ -76,9 +76,8 @@ impl Caret {
         self.pos.x = 0;
         self.pos.y += 1;
         while self.pos.y >= buf.layers[current_layer].lines.len() as i32 {
-            let len = buf.layers[current_layer].lines.len();
-            let buffer_width = buf.terminal_state.get_width();
-            buf.layers[current_layer].lines.insert(len, Line::with_capacity(buffer_width));
+            // no storage is reserved for lines the cursor only passes
+            buf.layers[current_layer].lines.push(Line::default());
         }
         if !buf.is_terminal_buffer {
             return;
